@@ -44,15 +44,17 @@ Print Assumptions C05_seek_then_next.
 
 (** one seek, from any state satisfying the between-operations invariant
     [Common] (window of the input, offset invariant): whether the target is
-    inside the buffer (shortcut: buffer and source untouched) or not (source
-    seek + refill: the buffer then starts at the target), the reader ends up
-    positioned at the target record *)
+    inside the buffer of a reader that is not New (shortcut: buffer and source
+    untouched) or not, or the reader is still New (source seek + refill: the
+    buffer then starts at the target; a New reader never takes the shortcut,
+    its buffer can only be the partial result of a failed first refill), the
+    reader ends up positioned at the target record *)
 Theorem C05_seek_both_branches : forall inp ffuel r off s line,
   Common inp ffuel r off -> seek_ok (src r) -> nth_error inp s = Some GT ->
   exists r' off', fa_seek ffuel r line s = (r', OOk) /\
     PosAt inp ffuel r' off' s line /\ seek_ok (src r') /\
-    ((off <= s < off + length (buf r) /\ off' = off /\ buf r' = buf r /\ src r' = src r) \/
-     (~ (off <= s < off + length (buf r)) /\ off' = s /\ start r' = 0)).
+    ((off <= s < off + length (buf r) /\ st r <> FNew /\ off' = off /\ buf r' = buf r /\ src r' = src r) \/
+     ((~ (off <= s < off + length (buf r)) \/ st r = FNew) /\ off' = s /\ start r' = 0)).
 Proof. exact seek_spec. Qed.
 Print Assumptions C05_seek_both_branches.
 
